@@ -22,6 +22,8 @@ use trusttunnel::verif_hooks as vh;
 
 const T_MS: u64 = 1000;
 const ACTIONS: [&str; 5] = ["idle", "left", "right", "both", "toggle-block-peer-sink"];
+/// actions that only occur in a forced prefix: the client ends its upload (half-close)
+const PREFIX_ACTIONS: [&str; 3] = ["client-ends", "client-ends+right", "block-client-sink"];
 
 #[derive(Clone, Debug, serde::Serialize, serde::Deserialize)]
 pub struct Case {
@@ -29,6 +31,10 @@ pub struct Case {
     pub step_ms: u64,
     /// check the "closed within 2T" half (false on the exact grid, where equality is an artefact)
     pub check_liveness: bool,
+    /// actions forced at the first steps (indices into ACTIONS, 5 + i for PREFIX_ACTIONS[i]);
+    /// the exploration branches from the step after the prefix
+    #[serde(default)]
+    pub prefix: Vec<usize>,
 }
 
 fn scenario(case: Case) -> impl Fn(&mut Chooser) -> Result<u64, Violation> + Sync {
@@ -94,12 +100,16 @@ fn scenario(case: Case) -> impl Fn(&mut Chooser) -> Result<u64, Violation> + Syn
             let fail = |sig: &str, what: String, actions: &Vec<&'static str>| -> Violation {
                 Violation::new(format!("C14:{sig}"), format!("{what}; actions per step of {} ms: {:?}", case.step_ms, actions), json!({"case": case, "actions": actions}))
             };
-            for _step in 0..case.horizon {
+            for step in 0..case.horizon {
                 if closed.is_some() {
                     break;
                 }
-                let a = env.lock().unwrap().ch.pick_free("step", ACTIONS.len());
-                actions.push(ACTIONS[a]);
+                let a = match case.prefix.get(step) {
+                    Some(a) => *a,
+                    None => env.lock().unwrap().ch.pick_free("step", ACTIONS.len()),
+                };
+                let name = if a < ACTIONS.len() { ACTIONS[a] } else { PREFIX_ACTIONS[a - ACTIONS.len()] };
+                actions.push(name);
                 let deliver = |name: &str| {
                     let mut held = sio::held(&env);
                     if let Some(pos) = held.iter().position(|(n, _)| n == name) {
@@ -111,7 +121,20 @@ fn scenario(case: Case) -> impl Fn(&mut Chooser) -> Result<u64, Violation> + Syn
                         sio::put_back(&env, &n2, w2);
                     }
                 };
-                match ACTIONS[a] {
+                match name {
+                    "client-ends" | "client-ends+right" => {
+                        // nothing more will come from the client: its next read reports the end of the stream
+                        {
+                            let mut g = env.lock().unwrap();
+                            let next = g.sources[0].next;
+                            g.sources[0].script.truncate(next);
+                        }
+                        deliver("wake:client-source");
+                        if name == "client-ends+right" {
+                            deliver("wake:peer-source");
+                        }
+                    }
+                    "block-client-sink" => sio::set_blocked(&env, 1, true),
                     "left" => deliver("wake:client-source"),
                     "right" => deliver("wake:peer-source"),
                     "both" => {
@@ -163,6 +186,9 @@ fn scenario(case: Case) -> impl Fn(&mut Chooser) -> Result<u64, Violation> + Syn
             }
             drop(fut);
             let g = env.lock().unwrap();
+            if std::env::var_os("VERIF_DEBUG").is_some() {
+                eprintln!("C14 actions {actions:?} closed {closed:?} last_activity {last_activity_ms} log {:?}", g.log);
+            }
             if closed.is_some() && !(g.sources[0].dropped && g.sources[1].dropped && g.sinks[0].dropped && g.sinks[1].dropped) {
                 return Err(fail("endpoints-not-released", "endpoints not released after the tunnel was closed".into(), &actions));
             }
@@ -183,10 +209,16 @@ pub fn run(tier: Tier) -> i32 {
     crate::engine::watch::start("C14", tier.name(), Duration::from_secs(60), crate::engine::watch::OnExpiry::Machinery);
     let mut rep = Report::new("C14", tier, "model_checking");
     let h = tier.pick(8usize, 11usize);
+    let hh = tier.pick(8usize, 9usize);
     let cases = vec![
-        Case { horizon: h, step_ms: T_MS / 4 + 1, check_liveness: true },
-        Case { horizon: h, step_ms: T_MS / 4, check_liveness: false },
-        Case { horizon: h + 2, step_ms: T_MS / 2 + 1, check_liveness: true },
+        Case { horizon: h, step_ms: T_MS / 4 + 1, check_liveness: true, prefix: vec![] },
+        Case { horizon: h, step_ms: T_MS / 4, check_liveness: false, prefix: vec![] },
+        Case { horizon: h + 2, step_ms: T_MS / 2 + 1, check_liveness: true, prefix: vec![] },
+        // half-closed tunnels: the client has ended its upload, the download goes on or stalls
+        Case { horizon: hh + 2, step_ms: T_MS / 2 + 1, check_liveness: true, prefix: vec![7, 6] },
+        Case { horizon: hh + 2, step_ms: T_MS / 2 + 1, check_liveness: true, prefix: vec![5] },
+        Case { horizon: hh + 2, step_ms: T_MS / 2 + 1, check_liveness: true, prefix: vec![4, 6] },
+        Case { horizon: hh + 4, step_ms: T_MS / 4 + 1, check_liveness: true, prefix: vec![7, 6] },
     ];
     let mut total = 0u64;
     let mut cps = 0u64;
